@@ -48,9 +48,10 @@ type Unit struct {
 	curFuncLit      *ast.FuncLit
 	loopStack       []*loopCtx
 	havocAll        bool
-	loopAlloc       map[int]string // loop ordinal -> allocation counter at the head of its current iteration (freshin)
-	hvCounter       int            // generations of everything-havocs (see State.hvgen)
-	loopGens        map[int]bool   // generations created by loop-head havocs
+	heapStruct      map[string]*types.Named // cell heap name -> named struct type (for `final` fields)
+	loopAlloc       map[int]string          // loop ordinal -> allocation counter at the head of its current iteration (freshin)
+	hvCounter       int                     // generations of everything-havocs (see State.hvgen)
+	loopGens        map[int]bool            // generations created by loop-head havocs
 	allocSites      []allocSite
 	sliceDefs       map[string]string
 	lenHints        map[string]int64
@@ -244,8 +245,36 @@ func (u *Unit) ptrHeap(pointee types.Type) string {
 	name := "HP_" + sanitize(heapTypeKey(pointee))
 	if _, ok := u.c.heapNames[name]; !ok {
 		u.c.heapNames[name] = fmt.Sprintf("(Array Int %s)", u.c.sortOf(pointee))
+		if nm, ok := pointee.(*types.Named); ok {
+			if u.heapStruct == nil {
+				u.heapStruct = map[string]*types.Named{}
+			}
+			u.heapStruct[name] = nm
+		}
 	}
 	return name
+}
+
+// finalFacts: the `final` fields of every cell of heap h allocated before `alloc` have the same value in heap
+// versions a and b (the package assigns them only at construction).
+func (u *Unit) finalFacts(h, a, b, alloc string) string {
+	nm := u.heapStruct[h]
+	if nm == nil || a == b {
+		return ""
+	}
+	idx := u.eng.finalFields(nm)
+	if len(idx) == 0 {
+		return ""
+	}
+	u.c.n++
+	r := fmt.Sprintf("r_q%d", u.c.n)
+	var eqs []string
+	for _, i := range idx {
+		fa := u.fieldGet(Term{S: fmt.Sprintf("(select %s %s)", a, r), T: nm}, i)
+		fb := u.fieldGet(Term{S: fmt.Sprintf("(select %s %s)", b, r), T: nm}, i)
+		eqs = append(eqs, eq(fa.S, fb.S))
+	}
+	return fmt.Sprintf("(forall ((%s Int)) (! (=> (and (<= 1 %s) (< %s %s)) %s) :pattern ((select %s %s))))", r, r, r, alloc, and(eqs...), b, r)
 }
 
 func heapTypeKey(t types.Type) string {
@@ -294,8 +323,12 @@ func (u *Unit) heapWrite(st *State, h string, newVal string) {
 }
 
 func (u *Unit) havocHeap(st *State, h string) {
+	prev := u.heapCur(st, h)
 	n := u.c.fresh(h, u.c.heapNames[h])
 	st.heaps[h] = n
+	if f := u.finalFacts(h, prev, n, st.alloc); f != "" {
+		st.assume(f)
+	}
 }
 
 func (u *Unit) havocAllHeaps(st *State) {
@@ -466,6 +499,23 @@ var knownExternalVars = map[string]int64{
 	"github.com/ipld/go-car/util.MaxAllowedSectionSize": 32 << 20,
 }
 
+// nonNilExternalVars: pointer/interface-typed package variables of dependencies that are set once at package
+// initialisation and never assigned by the repository (trusted; listed in the trusted base).
+var nonNilExternalVars = map[string]bool{
+	"github.com/json-iterator/go.ConfigCompatibleWithStandardLibrary": true,
+	"github.com/json-iterator/go.ConfigDefault":                       true,
+	"github.com/json-iterator/go.ConfigFastest":                       true,
+	"encoding/base64.StdEncoding":                                     true,
+	"encoding/base64.URLEncoding":                                     true,
+	"encoding/base64.RawStdEncoding":                                  true,
+	"encoding/base64.RawURLEncoding":                                  true,
+	"encoding/binary.LittleEndian":                                    true,
+	"encoding/binary.BigEndian":                                       true,
+	"os.Stdout":                                                       true,
+	"os.Stderr":                                                       true,
+	"os.Stdin":                                                        true,
+}
+
 func (u *Unit) entryOr(st *State) *State {
 	if u.entry != nil {
 		return u.entry
@@ -484,6 +534,12 @@ func (u *Unit) readGlobal(st *State, v *types.Var) Term {
 		u.c.declareFun("gv_io_Discard", "() Int")
 		u.c.declareRaw("nonnil_io_Discard", "(assert (and (> gv_io_Discard 0) (< gv_io_Discard alloc@0)))")
 		return Term{S: "gv_io_Discard", T: v.Type()}
+	}
+	if nonNilExternalVars[v.Pkg().Path()+"."+v.Name()] && u.c.sortOf(v.Type()) == "Int" {
+		// package-level singletons of dependencies (initialised at package init, never assigned by the repository): non-nil
+		u.c.declareFun(name, "() Int")
+		u.c.declareRaw("nonnil_"+name, fmt.Sprintf("(assert (and (> %s 0) (< %s alloc@0)))", name, name))
+		return Term{S: name, T: v.Type()}
 	}
 	if k, ok := knownExternalVars[v.Pkg().Path()+"."+v.Name()]; ok {
 		if bits, signed, isInt := intInfo(v.Type()); isInt {
